@@ -19,6 +19,13 @@ import (
 // length is concrete. Elements are uint8 or sym{Uint8}.
 type symstr []value
 
+// opq is an abstract string / byte-slice identity (the result of an uninterpreted function such as a hash or a
+// serialisation): only equality and copying are defined on it.
+type opq struct {
+	t *smt.Term
+	n int // length when it is fixed by the function's contract (hex SHA-256: 64), else -1
+}
+
 // symptr is the address of cells[idx] for a symbolic index.
 type symptr struct {
 	cells []value
@@ -51,7 +58,40 @@ func strBytes(v value) []value {
 	panic(fmt.Sprintf("strBytes: unexpected %T", v))
 }
 
+func (i *interpreter) opqTerm(v value) *smt.Term {
+	switch x := v.(type) {
+	case opq:
+		return x.t
+	case string:
+		r := i.run
+		if r.strIntern == nil {
+			r.strIntern = map[string]int64{}
+		}
+		id, ok := r.strIntern[x]
+		if !ok {
+			id = int64(1000000000 + len(r.strIntern))
+			r.strIntern[x] = id
+		}
+		return r.ctx.Int64(id)
+	}
+	unsup("comparison of an abstract (uninterpreted) string with %T", v)
+	return nil
+}
+
 func (i *interpreter) binopAny(op token.Token, t types.Type, x, y value) value {
+	_, xo := x.(opq)
+	_, yo := y.(opq)
+	if xo || yo {
+		c := i.run.ctx
+		eq := c.Eq(i.opqTerm(x), i.opqTerm(y))
+		switch op {
+		case token.EQL:
+			return i.mkval(eq, types.Bool)
+		case token.NEQ:
+			return i.mkval(c.Not(eq), types.Bool)
+		}
+		unsup("operation %s on an abstract (uninterpreted) string", op)
+	}
 	_, xs := x.(symstr)
 	_, ys := y.(symstr)
 	if isSym(x) || isSym(y) || xs || ys {
